@@ -108,6 +108,15 @@ type jsonDoc struct {
 	F uint64             `json:"f"`
 }
 
+// anyDoc has untyped members next to typed ones.
+type anyDoc struct {
+	V interface{}            `json:"v"`
+	M map[string]interface{} `json:"m"`
+	L []interface{}          `json:"l"`
+	N int64                  `json:"n"`
+	F float64                `json:"f"`
+}
+
 // ---- Valuer / Scanner types ----
 
 // centsValuer stores itself as an integer (driver int64).
@@ -211,29 +220,36 @@ type scalarsRow struct {
 // tagsRow: implicitnull on every kind; string/binary/json tags on plain types
 // (the Complex struct of sqlgen/integration_test.go is embedded field by field).
 type tagsRow struct {
-	Id         int64             `sql:",primary"`
-	NullS      string            `sql:",implicitnull"`
-	NullI      int64             `sql:",implicitnull"`
-	NullU16    uint16            `sql:",implicitnull"`
-	NullF      float64           `sql:",implicitnull"`
-	NullB      bool              `sql:",implicitnull"`
-	NullBytes  []byte            `sql:",implicitnull"`
-	NullT      time.Time         `sql:",implicitnull"`
-	NullLS     likeString        `sql:",implicitnull"`
-	NullColor  colorInt32        `sql:"null_color,implicitnull"`
-	Text       []byte            `sql:",string"`
-	Blob       []byte            `sql:",binary"`
-	Mappings   map[string]string `sql:",json"`
-	Doc        jsonDoc           `sql:",json"`
-	PDoc       *jsonDoc          `sql:",json"`
-	List       []string          `sql:",json"`
-	JM         jsonMarshal       `sql:",json"`
-	PJM        *jsonMarshal      `sql:",json"`
-	Raw        json.RawMessage   `sql:",json"`
-	JInt       int64             `sql:",json"`
-	JStr       string            `sql:",json"`
-	StrTagS    string            `sql:",string"`
-	ImplStrTag string            `sql:",string,implicitnull"`
+	Id        int64             `sql:",primary"`
+	NullS     string            `sql:",implicitnull"`
+	NullI     int64             `sql:",implicitnull"`
+	NullU16   uint16            `sql:",implicitnull"`
+	NullF     float64           `sql:",implicitnull"`
+	NullB     bool              `sql:",implicitnull"`
+	NullBytes []byte            `sql:",implicitnull"`
+	NullT     time.Time         `sql:",implicitnull"`
+	NullLS    likeString        `sql:",implicitnull"`
+	NullColor colorInt32        `sql:"null_color,implicitnull"`
+	Text      []byte            `sql:",string"`
+	Blob      []byte            `sql:",binary"`
+	Mappings  map[string]string `sql:",json"`
+	Doc       jsonDoc           `sql:",json"`
+	PDoc      *jsonDoc          `sql:",json"`
+	List      []string          `sql:",json"`
+	JM        jsonMarshal       `sql:",json"`
+	PJM       *jsonMarshal      `sql:",json"`
+	Raw       json.RawMessage   `sql:",json"`
+	JInt      int64             `sql:",json"`
+	JStr      string            `sql:",json"`
+	// json columns with untyped slots: what sits in an interface{} must come
+	// back as the same Go value (float64 numbers, bool, nil, string, nested)
+	Any        map[string]interface{} `sql:",json"`
+	AnyList    []interface{}          `sql:",json"`
+	AnyDoc     anyDoc                 `sql:",json"`
+	PAnyDoc    *anyDoc                `sql:",json"`
+	AnyV       interface{}            `sql:",json"`
+	StrTagS    string                 `sql:",string"`
+	ImplStrTag string                 `sql:",string,implicitnull"`
 }
 
 // marshalRow: binary / string tagged marshalers, pointer and non-pointer,
